@@ -97,7 +97,7 @@ Record sp_state := mkSp {
   sp_closed : bool;
   sp_failing : bool;                  (* the connection may refuse writes *)
   sp_loops : list (mac * sphase);
-  sp_rxq : list arp_pkt               (* who-has-router requests of hunted MACs whose reply is decided, not yet written *)
+  sp_rxq : list arp_pkt               (* requests / probes whose reply is decided, not yet written *)
 }.
 Definition sp_init : sp_state := mkSp [] [] false false [] [].
 
@@ -120,21 +120,22 @@ Definition sp_set_phase (i : nat) (m : mac) (p : sphase) (s : sp_state) : sp_sta
 Definition sp_set_rxq (q : list arp_pkt) (s : sp_state) : sp_state :=
   mkSp (sp_hunted s) (sp_hist s) (sp_closed s) (sp_failing s) (sp_loops s) q.
 
-(* what a received, valid ARP packet must be answered with at once (the probe-reject), and whether a spoof
-   reply is decided (a who-has-router request from a hunted MAC: the reply is written by RxReply) *)
+(* whether a received, valid ARP packet gets a reply (decided now, written by RxReply): the probe-reject, or the
+   spoof reply to a who-has-router request from a hunted MAC; ProcessPacket itself writes nothing *)
 Definition sp_rx (c : cfg) (s : sp_state) (p : arp_pkt) (out : list frame) : sp_state * list viol :=
   if sp_closed s then (s, silent out VCloseStops)
   else if sp_is_probe p then
-    (s, if sp_probe_reject_due c (sp_hist s) p then
-          match out with
-          | [f] => if sp_is_reply_to c p f && (ftip f =? IP4_BCAST) then [] else [VProbeReject]
-          | [] => if sp_failing s then [] else [VProbeReject]
-          | _ => [VProbeReject]
-          end
-        else silent out VProbeReject)
+    if sp_probe_reject_due c (sp_hist s) p
+    then (sp_set_rxq (sp_rxq s ++ [p]) s, silent out VProbeReject)
+    else (s, silent out VProbeReject)
   else if sp_asks_router c p && mem (psmac p) (sp_hunted s) then
     (sp_set_rxq (sp_rxq s ++ [p]) s, silent out VSpoofReply)
   else (s, silent out VSpoofReply).
+
+(* the reply a request in flight gets: to the asking MAC, claiming its target address for our MAC; ARP target IP =
+   the asker's IP for the spoof reply, 255.255.255.255 for the probe-reject *)
+Definition sp_reply_ok (c : cfg) (p : arp_pkt) (f : frame) : bool :=
+  sp_is_reply_to c p f && (ftip f =? (if sp_is_probe p then IP4_BCAST else psip p)).
 
 Definition sp_step (c : cfg) (s : sp_state) (e : event) (out : list frame) : sp_state * list viol :=
   match e with
@@ -199,8 +200,8 @@ Definition sp_step (c : cfg) (s : sp_state) (e : event) (out : list frame) : sp_
       | Some p =>
           (sp_set_rxq (remove_nth k (sp_rxq s)) s,
            match out with
-           | [f] => if sp_is_reply_to c p f && (ftip f =? psip p) then [] else [VSpoofReply]
-           | [] => if sp_failing s then [] else [VSpoofReply]
+           | [f] => if sp_reply_ok c p f then [] else [if sp_is_probe p then VProbeReject else VSpoofReply]
+           | [] => if sp_failing s then [] else [if sp_is_probe p then VProbeReject else VSpoofReply]
            | _ => [VSpoofReply]
            end)
       | None => (s, silent out VSpoofReply)
